@@ -33,8 +33,8 @@ FAMILIES = {
     "Synthetic5D": ("br", [5], 5), "Synthetic10D": ("br", [10], 10),     # not in DESIGN's 21; in scope of the statement
 }
 # numeric optimum not proved in Lean: dense search on the implementation instead (a test)
-TESTED_ONLY = ["Schwefel", "Michaelwicz", "Schubert", "GramacyLee", "SixHump", "Synthetic1D", "Synthetic2D",
-               "Synthetic5D", "Synthetic10D"]
+TESTED_ONLY = ["Schwefel", "Michaelwicz", "Schubert", "GramacyLee", "Synthetic1D", "Synthetic2D",
+               "Synthetic5D", "Synthetic10D"]      # SixHump: both clauses proved to 1e-3 (Proofs/SixHump.lean); still searched densely
 SEPARABLE = ["Schwefel", "Michaelwicz"]     # sum of one-dimensional terms: coordinate-wise line search is global
 MICHALEWICZ_REJECTED = [1, 3, 4, 6, 30]     # the constructor must raise ValueError here (model: optimum = none)
 
@@ -451,7 +451,7 @@ def run(ctx):
     ctx.assumptions += [
         "libm/numpy sin, cos, exp, sqrt, pow approximate the real functions (regime R3); agreement with Lean's Float within 1e-9 (1+|v|) is tested, not proved",
         "finite-float clause is sampled (the real model has no overflow)",
-        "TESTED by dense search on the implementation, not proved: the bound clause of SixHump, Synthetic1D, Synthetic2D, Synthetic5D, "
+        "TESTED by dense search on the implementation, not proved: the bound clause of Synthetic1D, Synthetic2D, Synthetic5D, "
         "Synthetic10D (their value clause is proved) and both numeric clauses of Schwefel, Michaelwicz, Schubert, GramacyLee",
         "XinSheYang3: the uniform(0,1) draws are recorded from the implementation and fed to the model; theorem holds for every draw in [0,1]",
     ]
